@@ -264,7 +264,7 @@ func allHooks(maxArgs int) [][]string {
 func main() {
 	r := ev.New("C20", "exploration",
 		"hook = dump program + every argument sequence of length <=2 (quick) / <=3 (thorough) over {%url,%mimetype,%supertype,%subtype,x%url,%url%url,%URL,--,\"\"} plus hooks whose program is a placeholder; "+
-			"x 16 hostile links x 5 media types x 6 entry points (o on a note and on a video, number+Enter for a body link and an attachment, p and b on an actor) through ui.State.Update with a real exec; "+
+			"x 17 hostile links (one of them the path of an executable) x 5 media types x 6 entry points (o on a note and on a video, number+Enter for a body link and an attachment, p and b on an actor) through ui.State.Update with a real exec; "+
 			"distinct_nontrivial = cases with at least one argument where a process is started")
 	vdump = filepath.Join(ev.VerifDir(), "bin", "vdump")
 	if _, err := os.Stat(vdump); err != nil {
@@ -292,6 +292,9 @@ func main() {
 		maxArgs = 3
 	}
 	hooks := allHooks(maxArgs)
+	// a link that is itself the path of an executable: if the program name were ever
+	// substituted, a process would start
+	links = append(links, vdump)
 	type grp struct{ link, mt string }
 	var groups []grp
 	for _, l := range links {
